@@ -434,6 +434,11 @@ dispatch!(m, Mach, {
     }
 });
 
+const LANE_PARTITIONS4: [[usize; 4]; 15] = [
+    [0, 0, 0, 0], [0, 0, 0, 1], [0, 0, 1, 0], [0, 1, 0, 0], [0, 1, 1, 1], [0, 0, 1, 1], [0, 1, 0, 1], [0, 1, 1, 0],
+    [0, 0, 1, 2], [0, 1, 0, 2], [0, 1, 2, 0], [0, 1, 1, 2], [0, 1, 2, 1], [0, 1, 2, 2], [0, 1, 2, 3],
+];
+
 fn operands(rng: &mut Rng, n: usize, thorough: bool) -> Vec<(Vec<u8>, Vec<u8>)> {
     let mut v: Vec<(Vec<u8>, Vec<u8>)> = vec![];
     let pos: Vec<u8> = (0..n).map(|i| (i + 1) as u8).collect(); // every byte distinguishable: 01 02 .. n
@@ -481,6 +486,15 @@ fn operands(rng: &mut Rng, n: usize, thorough: bool) -> Vec<(Vec<u8>, Vec<u8>)> 
         neg128.extend_from_slice(&u128::from_le_bytes(x).wrapping_neg().to_le_bytes());
     }
     v.push((ra, neg128));
+    // operand STRUCTURE: the four quarters of each operand under every equality pattern (15 set partitions of four)
+    for part in LANE_PARTITIONS4.iter() {
+        let q = n / 4;
+        let va: Vec<Vec<u8>> = (0..4).map(|_| rng.bytes(q)).collect();
+        let vb: Vec<Vec<u8>> = (0..4).map(|_| rng.bytes(q)).collect();
+        let a: Vec<u8> = part.iter().flat_map(|&c| va[c].clone()).collect();
+        let b: Vec<u8> = part.iter().flat_map(|&c| vb[c].clone()).collect();
+        v.push((a, b));
+    }
     // add with carries: a + b where each word of a is all-ones minus small
     let a: Vec<u8> = (0..n).map(|i| if i % 4 == 0 { 0xfe } else { 0xff }).collect();
     let b: Vec<u8> = (0..n).map(|i| if i % 4 == 0 { 0x03 } else { 0x00 }).collect();
